@@ -1,33 +1,74 @@
 """C02: RTMP reader vs. spec-conformant chunk streams (spec/rtmp/RtmpChunk.tla)."""
 import os
+from concurrent.futures import ThreadPoolExecutor
 
 FAMILIES = ["ts", "mix", "scs", "forms", "violate"]
+# roll-over of the 31-bit timestamp: scripted chains of roll-overs on two chunk streams (wrapchain), all short histories
+# over the timestamp classes just below 2^31 (wrap: 2 messages quick, 3 thorough), the same with messages of several
+# chunks on two interleaved chunk streams (wrapmulti, thorough); family ts has the histories that start at 2^31 - 1
+WRAP = {"quick": ["wrapchain", "wrap"], "thorough": ["wrapchain", "wrap", "wrapmulti"]}
+
+
+def _same_model(ctx, mc_cfg, gen_cfg):
+    """TRUE if the generation cfg is the MC cfg plus the emitting invariant (then the GEN run IS the MC run)."""
+    d = os.path.join(os.path.dirname(os.path.dirname(os.path.abspath(__file__))), "spec", "rtmp")
+    a = open(os.path.join(d, mc_cfg)).read().split()
+    b = [w for w in open(os.path.join(d, gen_cfg)).read().split() if w != "Emit"]
+    return a == b
 
 
 def run(ctx):
     t = ctx.tier
+    # a bounded heap per TLC run (the largest family needs well under 3 GB): the JVM default is a quarter of the machine
+    def tlc(*a, **kw):
+        kw.setdefault("jopts", ["-Xmx4g"])
+        return ctx.tlc(*a, **kw)
     ctx.rule = ("TLC enumerates every chunk sequence the ConformantSend actions of RtmpChunk can emit within each family's bounds (header type "
                 "0-3 per message where section 5.3.1.2 allows it, basic-header forms, interleaving of chunk streams, Set Chunk Size between and "
-                "inside messages, extended timestamps incl. deltas, librtmp ping form) plus one rule-breaking chunk; each finished wire is rendered to "
+                "inside messages, extended timestamps incl. deltas, timestamps that pass 2^31 through plain and extended deltas and repeated type-3 "
+                "deltas, librtmp ping form) plus one rule-breaking chunk; each finished wire is rendered to "
                 "bytes by the specification's ChunkLD and fed to a real rtmp.Protocol under whole/random/1-byte segmentation; distinct = distinct wire")
     ctx.exhaustive = True
-    ctx.assumptions += ["timestamps below 2^31 at the sender (a set top bit of a 32-bit extended timestamp is modelled as a flag)",
+    ctx.assumptions += ["message timestamps are the 31-bit values the property defines; the sender's clock runs forward and may roll over: deltas are "
+                        "taken mod 2^31, a step back of the 31-bit value is a roll-over (type 1/2/3 allowed) if it is less than 2^30 ms ahead, else "
+                        "type 0 is required; a set top bit of a 32-bit extended type-0 timestamp is modelled as a flag",
                         "no Abort messages; type 1/2 headers on continuation chunks are neither generated nor judged",
                         "extended timestamp is repeated in type-3 chunks (Adobe/FFmpeg behaviour, also the library writer's)"]
     ctx.sany("rtmp", "RtmpChunk")
+    merged = set()
+    mc = []
     for f in FAMILIES:
-        ctx.tlc("rtmp", "MC_RtmpChunk", "MC_Chunk_%s.cfg" % f, coverage=(t == "thorough" and f == "ts"))
-    # non-vacuity: a receiver treating an extended delta as absolute time disagrees with the sender
-    ctx.tlc("rtmp", "MC_RtmpChunk", "MC_Chunk_ts_deviation.cfg", expect_violation="DecodeOk", count_states=False)
+        cov = (t == "thorough" and f == "ts")
+        if not cov and _same_model(ctx, "MC_Chunk_%s.cfg" % f, "Gen_Chunk_%s.%s.cfg" % (f, t)):
+            merged.add(f)       # same constants, same invariants: the generation run below is this model-checking run
+            continue
+        mc.append((f, cov))
+
+    def model_checking():
+        # specification-only runs (no cases): they go on beside the generation runs below
+        infos = [tlc("rtmp", "MC_RtmpChunk", "MC_Chunk_%s.cfg" % f, coverage=cov, count_states=False) for f, cov in mc]
+        # non-vacuity: a receiver treating an extended delta as absolute time disagrees with the sender
+        tlc("rtmp", "MC_RtmpChunk", "MC_Chunk_ts_deviation.cfg", expect_violation="DecodeOk", count_states=False)
+        # non-vacuity: a receiver that reduces to 31 bits only after an extended timestamp disagrees with the sender as
+        # soon as a plain 24-bit delta carries the timestamp past 2^31
+        tlc("rtmp", "MC_RtmpChunk", "MC_Chunk_wrap_deviation.cfg", expect_violation="DecodeOk", count_states=False)
+        return infos
+
     cases = os.path.join(ctx.out, "cases.ndjson")
-    gens = list(FAMILIES) + ["tsmulti"] + (["scs3"] if t == "quick" else [])
-    for f in gens:
-        ctx.tlc("rtmp", "MC_RtmpChunk", "Gen_Chunk_%s.%s.cfg" % (f, t), cases_to=cases, timeout=1500, count_states=False)
+    gens = list(FAMILIES) + ["tsmulti"] + (["scs3"] if t == "quick" else []) + WRAP[t]
+    with ThreadPoolExecutor(max_workers=1) as ex:
+        fut = ex.submit(model_checking)
+        for f in gens:
+            tlc("rtmp", "MC_RtmpChunk", "Gen_Chunk_%s.%s.cfg" % (f, t), cases_to=cases, timeout=1500,
+                count_states=(f in merged or f in WRAP[t]))
+        for info in fut.result():
+            ctx.states += info["distinct"]
+            ctx.transitions += info["generated"]
     if t == "thorough":
         # many chunk streams on one connection (1100 streams, each used twice: fmt 0 then fmt 1)
-        ctx.tlc("rtmp", "MC_RtmpChunk", "Gen_Chunk_many.cfg", cases_to=cases, timeout=600, count_states=False, workers=1)
+        tlc("rtmp", "MC_RtmpChunk", "Gen_Chunk_many.cfg", cases_to=cases, timeout=600, count_states=False, workers=1)
     if t == "thorough":
         ctx.exhaustive = False
-        ctx.tlc("rtmp", "MC_RtmpChunk", "Gen_Chunk_sim.cfg", cases_to=cases, simulate=3000, depth=60, workers=1, timeout=900)
+        tlc("rtmp", "MC_RtmpChunk", "Gen_Chunk_sim.cfg", cases_to=cases, simulate=3000, depth=60, workers=1, timeout=900)
     res = ctx.replay("chunks", cases, timeout=3000)
     ctx.judge("chunks", cases, res)
